@@ -362,12 +362,13 @@ func initSrc(kind string, in *Init) string {
 	panic("bad kind " + kind)
 }
 
-// initValue builds the Go value a fresh slot of the kind holds. The generator only
-// puts elements of exactly the declared type into typed literals, so no conversion
-// rule is involved here.
-func initValue(kind string, in *Init) reflect.Value {
+// initValue builds the Go value a fresh slot of the kind holds, with the status of the
+// element conversions of a typed literal (the leading initialisations only use elements of
+// exactly the declared type; later `new` steps also use elements needing a conversion).
+func initValue(kind string, in *Init) (reflect.Value, cstat) {
 	t := kindType[kind]
 	out := reflect.New(t).Elem()
+	st := cOK
 	switch kind {
 	case "str":
 		out.SetString(in.S)
@@ -380,36 +381,29 @@ func initValue(kind string, in *Init) reflect.Value {
 		}
 		s := reflect.MakeSlice(t, len(in.Elems), len(in.Elems))
 		for i, e := range in.Elems {
-			gv := e.goValue()
-			if kind == "tii" {
-				// rows are spelled as untyped lists of ints
-				row := make([]int64, len(e.L))
-				for j, x := range e.L {
-					row[j] = x.I
-				}
-				s.Index(i).Set(reflect.ValueOf(row))
-				continue
+			ev, es := conv(e.goValue(), t.Elem())
+			st = worse(st, es)
+			if es == cErr {
+				return out, cErr
 			}
-			if gv == nil {
-				continue
-			}
-			s.Index(i).Set(reflect.ValueOf(gv))
+			s.Index(i).Set(ev)
 		}
 		out.Set(s)
 	case "um", "msi", "mis":
 		mp := reflect.MakeMap(t)
 		for i := range in.MK {
-			k := reflect.New(t.Key()).Elem()
-			if gv := in.MK[i].goValue(); gv != nil {
-				k.Set(reflect.ValueOf(gv))
+			if in.MK[i].composite() {
+				return out, cErr // unhashable key
 			}
-			v := reflect.New(t.Elem()).Elem()
-			if gv := in.MV[i].goValue(); gv != nil {
-				v.Set(reflect.ValueOf(gv))
+			k, ks := conv(in.MK[i].goValue(), t.Key())
+			v, vs := conv(in.MV[i].goValue(), t.Elem())
+			st = worse(st, worse(ks, vs))
+			if st == cErr {
+				return out, cErr
 			}
 			mp.SetMapIndex(k, v)
 		}
 		out.Set(mp)
 	}
-	return out
+	return out, st
 }
